@@ -439,8 +439,15 @@ CHECKS = {
             TB + "text parser of the oracle (rid >= 100000, header line = cell 'rid'); records with uniform chapter names at every level; CPython str.format in the C locale, "
             "str.center, str.expandtabs (transcribed, diffed one by one); strings without newline; that pickle restores the state (the model's pickle is the "
             "identity) and a chapter's own exactly-once delivery are correspondence/oracle-only; after a raising stream the model sets header_streamed although the "
-            "code does not (outside the premise, never executed).",
-            "Lean 4 proof over a hand-written model + differential correspondence + oracle"),
+            "code does not (outside the premise, never executed).  TRANSLATOR TIE: harness/py2lean_c18.py (docstring = the accepted Python sub-language and "
+            "the state-passing rendering: objects as records of their fields, dicts as association lists, partial as frozen-argument record, exceptions and "
+            "recursion as Gen18.Res with a fuel bound) + Core/GenPreludeC18.lean are trusted; 10 methods of support.py are regenerated on every run "
+            "(Statistics.register / compile, MultiStatistics.compile / fields / register, Logbook.select / stream / __str__ / pop / __delitem__) and proved equal "
+            "to the model on all inputs (GenEq/C18.lean.tmpl, 11 theorems: compile for dicts with distinct keys, pop / del for every fuel >= chapter nesting "
+            "depth, del slice on the index list slice.indices returns); Logbook.record and Logbook.__txt__ are refused (a call of __txt__ is rendered as the "
+            "model's observation Logbook.txt) and stay tied by correspondence only; the signature table types buffindex as a length and names as numbers.",
+            "Lean 4 proof over a hand-written model + differential correspondence + oracle "
+            "+ translator tie (definitions regenerated from source, kernel-checked equal to the model)"),
     "C03": ("full",
             "Lean theorems (C03.truthful, evals_exact, nevals_logged, log_shape(+_gu), hof_fed, hof_shown_evaluated(+_gu) (every individual shown to the hall of fame "
             "carried its truthful fitness at that moment), every_boundary, eaSimple/eaMuPlusLambda/eaMuCommaLambda/eaMuPlusLambdaBest/harm/harmR/"
